@@ -254,6 +254,22 @@ def run(ctx, res):
         return
     adt = sdes[0]
     d = D.impl_item(PARSER_TRAIT, adt, "parse")
+    # the item type numbers the crate publishes (what a caller compares type_() with) are the RFC's
+    from ..spec import SDES_ITEM_TYPES
+    n_const = 0
+    for nm, want in SDES_ITEM_TYPES.items():
+        cd = [dd for dd, bb in F.bodies.items() if bb.get("kind") == "AssocConst" and dd.startswith("sdes::SdesItem") and dd.endswith("::" + nm)]
+        res.ob(bool(cd), "anchor", f"SdesItem::{nm}", "public item-type constant named in RFC 3550 §6.5 exists")
+        for dd in cd:
+            Ic = Interp(F)
+            try:
+                vals = [v for _, k, v in Ic.eval_const(dd, State()) if k == "val"]
+            except Unmodelled as ex:
+                res.unmodelled(dd, str(ex))
+                continue
+            n_const += 1
+            res.ob(bool(vals) and all(isinstance(v, IntV) and v.l == lin(want) for v in vals), "item-type", dd, f"SdesItem::{nm} == {want} (RFC 3550 §6.5)", detail=repr(vals)[:120])
+    res.floor("SDES item type constants compared", n_const, 8)
     # the chunk and item sub-parsers: found by what they return (their names are private)
     chunk_parse = D.by_signature(["&[u8]"], "Result<(sdes::SdesChunk<", "sdes::")
     item_parse = D.by_signature(["&[u8]"], "Result<(sdes::SdesItem<", "sdes::")
